@@ -450,6 +450,146 @@ func checkStampedText(in AVia, outText string, want AVia) string {
 	return ""
 }
 
+// c14RegressMessage: the saved-input form of the message sub-check - the wire
+// text is the input, the independent reader's view of it the expectation:
+// after everything the proxy computes from a message, every decoded header is
+// re-encoded entry by entry with the text it had.
+func c14RegressMessage(wire string) string {
+	in, err := sipRead([]byte(wire))
+	if err != nil {
+		return "skip: saved input is not a well-formed message for the independent reader: " + err.Error()
+	}
+	msg, err := ParseMessage(bufio.NewReader(strings.NewReader(wire)))
+	if err != nil {
+		return fmt.Sprintf("ParseMessage failed: %v", err)
+	}
+	msg.GetVia()
+	msg.ForEachViaParam(func(*ViaParam) {})
+	msg.GetRoute()
+	msg.GetFrom()
+	msg.GetTo()
+	msg.GetCSeq()
+	msg.GetDialog()
+	msg.GetClientTransaction()
+	msg.GetServerTransaction()
+	msg.GetMethod()
+	msg.GetExpires(0)
+	if to, err := msg.GetTo(); err == nil {
+		to.GetHost()
+		to.GetUserHost()
+	}
+	_ = msg.String()
+	outb, err := msg.Bytes()
+	if err != nil {
+		return fmt.Sprintf("Bytes failed: %v", err)
+	}
+	out, err := sipRead(outb)
+	if err != nil {
+		return fmt.Sprintf("re-encoded message unreadable: %v\n%s", err, jsonBytes(outb))
+	}
+	if out.Start != in.Start {
+		return fmt.Sprintf("start line re-encoded with a difference:\n in: %q\nout: %q", in.Start, out.Start)
+	}
+	for _, kind := range []int{hVia, hRoute, hRR} {
+		want, got := in.Entries(kind), out.Entries(kind)
+		if len(got) != len(want) {
+			return fmt.Sprintf("%s: %d entries after re-encoding, want %d: %q", hKindNames[kind], len(got), len(want), got)
+		}
+		for i := range want {
+			if got[i] != want[i] {
+				return fmt.Sprintf("%s entry %d re-encoded with a difference:\n in: %q\nout: %q", hKindNames[kind], i, want[i], got[i])
+			}
+		}
+	}
+	for _, k := range []int{hFrom, hTo, hCSeq, hCallID} {
+		want, _ := in.First(k)
+		got, _ := out.First(k)
+		if got != want {
+			return fmt.Sprintf("%s re-encoded with a difference:\n in: %q\nout: %q", hKindNames[k], want, got)
+		}
+	}
+	a, b := in.Others(), out.Others()
+	if len(a) != len(b) {
+		return fmt.Sprintf("%d other header fields after re-encoding, %d before", len(b), len(a))
+	}
+	for i := range a {
+		if a[i] != b[i] {
+			return fmt.Sprintf("header field %d re-encoded with a difference:\n in: %q\nout: %q", i, a[i], b[i])
+		}
+	}
+	if cls := out.Values(hCL); len(cls) != 1 || cls[0] != strconv.Itoa(len(out.Body)) || string(out.Body) != string(in.Body) {
+		return fmt.Sprintf("Content-Length / body after re-encoding: %q, %d body bytes (%d before)", cls, len(out.Body), len(in.Body))
+	}
+	return ""
+}
+
+// c14RegressValue: one decoded production given as text; decode-then-encode must give the text back.
+func c14RegressValue(production, text string) string {
+	var out string
+	var err error
+	switch production {
+	case "sipuri":
+		var u *SIPURI
+		if u, err = ParseSipURI(text); err == nil {
+			out = u.String()
+		}
+	case "addrspec":
+		var a *AddrSpec
+		if a, err = ParseAddrSpec(text); err == nil {
+			out = a.String()
+		}
+	case "from":
+		var f *FromSpec
+		if f, err = ParseFromSpec(text); err == nil {
+			out = f.String()
+		}
+	case "to":
+		var t *To
+		if t, err = ParseTo(text); err == nil {
+			out = t.String()
+		}
+	case "via":
+		var v *Via
+		if v, err = ParseVia(text); err == nil {
+			out = v.String()
+		}
+	case "route":
+		var r *Route
+		if r, err = ParseRoute(text); err == nil {
+			out = r.String()
+		}
+	case "recordroute":
+		var r *RecordRoute
+		if r, err = ParseRecordRoute(text); err == nil {
+			out = r.String()
+		}
+	case "cseq":
+		var c *CSeq
+		if c, err = ParseCSeq(text); err == nil {
+			out = c.String()
+		}
+	default:
+		return "skip: unknown production " + production
+	}
+	if err != nil {
+		return fmt.Sprintf("%s %q is not decoded: %v", production, text, err)
+	}
+	if out != text {
+		return fmt.Sprintf("%s re-encoded with a difference:\n in: %q\nout: %q", production, text, out)
+	}
+	return ""
+}
+
+func c14Regress(c regressCase) string {
+	switch c.S("kind") {
+	case "message":
+		return c14RegressMessage(c.S("wire"))
+	case "value":
+		return c14RegressValue(c.S("production"), c.S("text"))
+	}
+	return "skip: kind " + c.S("kind")
+}
+
 func c14GenRequestMsg(rt *rapid.T) *AMsg {
 	p := msgParts{IsReq: rapid.IntRange(0, 3).Draw(rt, "isreq") > 0, Version: "SIP/2.0"}
 	if p.IsReq {
@@ -490,6 +630,7 @@ func TestC14(t *testing.T) {
 	V.Assume("generator emits the canonical spacing (no blanks around ; = / :, one blank between sent-protocol and sent-by, at most one blank after a list comma and between display name and '<'); parameter values are tokens; no empty-valued 'k=' parameters; no empty passwords")
 	ipv6Known := V.KnownOpen("F07")
 	userKnown := V.KnownOpen("F09")
+	V.Regress(t, c14Regress)
 
 	// the independent reader is validated against the generator first
 	rcheck(t, "reader-vs-generator", V.N(3000, 20000), func(rt *rapid.T) {
